@@ -241,6 +241,11 @@ func (ms MatrixSetup) MarshalJSON() ([]byte, error) {
 // MarshalYAML returns either a Scalars (if the setup is a single anonymous
 // dimension) or a map (if it contains one or more (named) dimensions).
 func (ms MatrixSetup) MarshalYAML() (any, error) {
+	if len(ms) == 0 {
+		// A nil setup and an empty setup are the same thing; marshal both as
+		// null so that JSON and YAML (and with them the signed matrix) agree.
+		return nil, nil
+	}
 	if len(ms) == 1 && len(ms[""]) > 0 {
 		return ms[""], nil
 	}
